@@ -14,7 +14,7 @@ from av import gen, ref
 MANIFEST_ENTRY = {
     "category": "exploration",
     "technique": "accept/reject oracle over an exhaustive enumeration of expression-node nestings handed to the real parse_function, sys.addaudithook side-effect sanitizer around parsing and evaluation, and an independent AST evaluator as reference for accepted arithmetic; reference evaluation tracks conditioning",
-    "text": "Every ast expression node class of the running interpreter is classified (must-reject / must-accept / don't-care, derived from the property text) and instantiated in minimal expressions, nested inside every allowed (and don't-care) context to depth 2 (quick) or 3 (thorough) - exhaustive for that space - and handed to the real parser; a must-class mismatch is a violation. While every accepted string is parsed and evaluated (scalars and arrays) in a scratch directory an audit hook records file, import, exec/compile, subprocess and socket events; any event other than the parser's own compile/eval of its AST is a violation. Random arithmetic expressions over the whitelist are evaluated by the returned closure and by an independent recursive evaluator (0/x = 0), and the reported dependency set is compared with the free names. Evaluation environments hold zeros, ordinary, tiny (1e-12 .. 1e-9) and large values; the comparison tolerance is relative to the largest intermediate value, and evaluations within rounding distance of (but not at) a discontinuity of floor, //, % or a comparison are counted, not judged. Chained comparisons are evaluated (scalars) as the conjunction of their pairwise comparisons. min / max with a single argument are part of the probes and of the generator; results behind pow / exp / sin / cos / ln are inexact and discontinuities or near-zero denominators behind them are counted, not judged.",
+    "text": "Every ast expression node class of the running interpreter is classified (must-reject / must-accept / don't-care, derived from the property text) and instantiated in minimal expressions, nested inside every allowed (and don't-care) context to depth 2 (quick) or 3 (thorough) - exhaustive for that space - and handed to the real parser; a must-class mismatch is a violation. While every accepted string is parsed and evaluated (scalars and arrays) in a scratch directory an audit hook records file, import, exec/compile, subprocess and socket events; any event other than the parser's own compile/eval of its AST is a violation. Random arithmetic expressions over the whitelist are evaluated by the returned closure and by an independent recursive evaluator (0/x = 0), and the reported dependency set is compared with the free names. Evaluation environments hold zeros, ordinary, tiny (1e-12 .. 1e-9) and large values; the comparison tolerance is relative to the largest intermediate value, and evaluations within rounding distance of (but not at) a discontinuity of floor, //, % or a comparison are counted, not judged. Chained comparisons are evaluated (scalars) as the conjunction of their pairwise comparisons. min / max with a single argument are part of the probes and of the generator; results behind pow / exp / sin / cos / ln are inexact and discontinuities or near-zero denominators behind them are counted, not judged. t and dt are among the names of generated expressions.",
     "note": "'All strings' beyond the enumerated nesting depth and the random expressions is out of reach of this technique and is not claimed. Trusts CPython's ast module and audit events.",
 }
 
